@@ -136,14 +136,11 @@ def com_cases(draw):
         case["amp"] = draw(st.sampled_from([1.0, 4.0, 37.5, 1000.0]))
         case["bg"] = draw(st.sampled_from([0.001, 0.03125, 0.5, 1.0]))
     case["batches"] = draw(st.lists(st.integers(1, n), min_size=1, max_size=3, unique=True))
-    if draw(st.booleans()):
-        case["mask"] = {
-            "type": draw(st.sampled_from(["binary", "binary", "soft"])),
-            "seed": draw(SEEDS),
-            "keep": draw(st.sampled_from([0.9, 0.5, 0.1, 0.0])),
-        }
-    else:
+    mtype = draw(st.sampled_from(["none", "binary", "none", "soft", "binary"]))
+    if mtype == "none":
         case["mask"] = None
+    else:
+        case["mask"] = {"type": mtype, "seed": draw(SEEDS), "keep": draw(st.sampled_from([0.9, 0.5, 0.1, 0.0]))}
     return case
 
 
@@ -156,8 +153,10 @@ def fit_cases(draw):
     scan, det = draw(geometry())
     method = draw(st.sampled_from(["plane", "plane", "constant"]))
     case = {"kind": "fit", "scan": scan, "det": det, "method": method}
+    # a constant is also a plane: a quarter of the plane fits get exactly flat origin maps
+    flat = method == "plane" and draw(st.integers(0, 3)) == 0
     for key, L in (("surf_r", det[0]), ("surf_c", det[1])):
-        if method == "constant":
+        if method == "constant" or flat:
             case[key] = [draw(_FRAC) * (L - 1), 0.0, 0.0]
         else:
             case[key] = real_plane_coef(L, scan[0], scan[1], draw(_UNIT), draw(_UNIT), draw(_FRAC))
